@@ -23,9 +23,11 @@ RegisterKinds == {"register_awkward", "register_numba"}
 \* the part of the process state that no call - not even Register - may change
 Core(g) == [err |-> g.err, filters |-> g.filters, printopts |-> g.printopts]
 
-FrameVerdict(e) ==
-    IF e.mutating = "F" /\ e.pre # e.post THEN "operand-modified"
-    ELSE IF e.kind \notin RegisterKinds /\ e.gpre # e.gpost THEN
+\* C16: a call that is not an assignment / in-place operator leaves its operands bit-identical
+OperandVerdict(e) == IF e.mutating = "F" /\ e.pre # e.post THEN "operand-modified" ELSE "ok"
+\* C20: the process state is unchanged; Register may change the registries only, idempotently
+GlobalVerdict(e) ==
+    IF e.kind \notin RegisterKinds /\ e.gpre # e.gpost THEN
         (IF Core(e.gpre) # Core(e.gpost) THEN
              (IF e.gpre.err # e.gpost.err THEN "numpy-error-state-changed"
               ELSE IF e.gpre.filters # e.gpost.filters THEN "warnings-filters-changed" ELSE "print-options-changed")
@@ -41,9 +43,11 @@ Continuity(k) == k > 1 /\ Events[k].tid = Events[k - 1].tid /\ Events[k].thread 
 Init == i = 1
 Next == /\ i <= Len(Events)
         /\ LET e == Events[i]
-               v == IF Continuity(i) THEN FrameVerdict(e) ELSE "state-changed-between-calls"
+               v == IF Continuity(i) THEN GlobalVerdict(e) ELSE "state-changed-between-calls"
+               w == OperandVerdict(e)
            IN  /\ (v # "ok" => PrintT("@@VERDICT " \o ToJson([line |-> i, tid |-> e.tid, seq |-> e.seq, verdict |-> v])))
-               /\ TLCSet(1, TLCGet(1) + (IF v = "ok" THEN 1 ELSE 0))
+               /\ (w # "ok" => PrintT("@@VERDICT " \o ToJson([line |-> i, tid |-> e.tid, seq |-> e.seq, verdict |-> w])))
+               /\ TLCSet(1, TLCGet(1) + (IF v = "ok" /\ w = "ok" THEN 1 ELSE 0))
         /\ i' = i + 1
 TraceSpec == Init /\ [][Next]_i
 AllConsumed == i = Len(Events) + 1 => PrintT("@@SUMMARY " \o ToJson([events |-> Len(Events), accepted |-> TLCGet(1)]))
